@@ -3814,7 +3814,11 @@ void Interpreter::call_destructor(const std::string &var_name,
         // v0.13.1: struct_members_refメカニズムにより、
         // selfへの変更は自動的に元の変数に反映される
         // per-statement writebackは不要（むしろ参照を破壊する）
-        execute_statement(destructor->body.get());
+        try {
+            execute_statement(destructor->body.get());
+        } catch (const ReturnException &) {
+            // a return statement ends the destructor body only
+        }
 
         // TypeContextをpop
         if (pushed_type_context) {
